@@ -27,7 +27,7 @@ import (
 // and a bit set of class labels (index into the property's label table).
 type info struct {
 	nt  bool
-	cls uint32
+	cls uint64
 }
 
 func (in *info) set(bit int) { in.cls |= 1 << uint(bit) }
@@ -124,31 +124,39 @@ func countDistinctLCS(a, b []int, S []int32) int64 {
 		return nx
 	}
 	na, nb := next(a), next(b)
+	// The recurrence is evaluated top down, so that only the states (i, j) that
+	// an optimal solution can pass through are visited (for inputs made of
+	// mostly distinct elements these are few).  Every count is >= 1, so 0 marks
+	// a state that has not been computed; the depth is bounded by S[0].
 	cnt := make([]int64, (m+1)*w)
-	for i := m; i >= 0; i-- {
-		for j := n; j >= 0; j-- {
-			L := S[i*w+j]
-			if L == 0 {
-				cnt[i*w+j] = 1
+	var rec func(i, j int) int64
+	rec = func(i, j int) int64 {
+		at := i*w + j
+		if c := cnt[at]; c != 0 {
+			return c
+		}
+		L := S[at]
+		if L == 0 {
+			cnt[at] = 1
+			return 1
+		}
+		var c int64
+		for q := 0; q < k; q++ {
+			ia, jb := int(na[i*k+q]), int(nb[j*k+q])
+			if ia < 0 || jb < 0 {
 				continue
 			}
-			var c int64
-			for q := 0; q < k; q++ {
-				ia, jb := int(na[i*k+q]), int(nb[j*k+q])
-				if ia < 0 || jb < 0 {
-					continue
-				}
-				if S[(ia+1)*w+jb+1]+1 == L {
-					c += cnt[(ia+1)*w+jb+1]
-					if c > lcsCountCap {
-						c = lcsCountCap
-					}
+			if S[(ia+1)*w+jb+1]+1 == L {
+				c += rec(ia+1, jb+1)
+				if c > lcsCountCap {
+					c = lcsCountCap
 				}
 			}
-			cnt[i*w+j] = c
 		}
+		cnt[at] = c
+		return c
 	}
-	return cnt[0]
+	return rec(0, 0)
 }
 
 // refLongest is the quadratic DP for the longest strictly increasing
@@ -226,6 +234,25 @@ type EditCase struct {
 	// Share (kind "words" only): elements that are a prefix of another element
 	// are re-slices of it, so different strings start at the same address.
 	Share bool `json:"share,omitempty"`
+	// Rounds: after the first call the inputs are updated IN PLACE (the same
+	// backing arrays, the same lengths, other contents) and diffed again, once
+	// per round; every call is checked in full against the contents of its
+	// moment (a caller that keeps two buffers and refills them).
+	Rounds []EditRound `json:"rounds,omitempty"`
+	// Then is another input pair, diffed (and checked) after this one.  After
+	// every later call of the case - a round or Then - the scripts returned by
+	// the earlier calls are compared with copies taken when they were returned:
+	// a returned script belongs to the caller.
+	Then *EditCase `json:"then,omitempty"`
+}
+
+// EditRound is one in-place update of the inputs of an EditCase.  Same copies
+// lhs over rhs first (as far as the shorter of the two goes); L and R are
+// writes {position modulo the length, value, identity} into lhs and rhs.
+type EditRound struct {
+	Same bool     `json:"same,omitempty"`
+	L    [][3]int `json:"l,omitempty"`
+	R    [][3]int `json:"r,omitempty"`
 }
 
 // lcsLen is the two-row dynamic programme for the LCS length (long inputs).
@@ -251,6 +278,8 @@ var c11Names = append([]string{
 	"inputs_equal", "an_input_empty", "lcs_len=0", "script_has_replace", "script_edits>=5",
 	"distinct_lcs=1", "distinct_lcs=2..9", "distinct_lcs>=10", "len>=30", "len(lhs)*len(rhs)>2^20", "len(lhs)*len(rhs)>2^24",
 	"same_values_but_different_elements", "equal_elements_that_are_distinguishable(+0,-0)",
+	"rediffed_after_in_place_update", "rediffed_in_place_with_len(lhs)*len(rhs)>=4096", "followed_by_another_input_pair",
+	"len(lhs)+len(rhs)_or_product_is_64|100|128|200|256|512|1000|1024",
 }, elemClassNames...)
 
 const (
@@ -267,6 +296,10 @@ const (
 	c11Big24
 	c11Twins
 	c11Zeros
+	c11Rounds
+	c11Rounds4096
+	c11Then
+	c11RoundSize
 	c11Elem // first of the elem=<kind> classes
 )
 
@@ -301,29 +334,88 @@ func spanOf[T any](k *ek[T], s, in, pristine []T, pos int) string {
 }
 
 // checkEdit instantiates the check with the element kind of the case.
-func checkEdit(c EditCase) (info, string) {
+func checkEdit(c EditCase) (info, string) { return checkEditObs(c, nil) }
+
+// checkEditObs: o (may be nil) receives the re-validation of the returned
+// scripts, see vk.Obs.Retain.
+func checkEditObs(c EditCase, o *vk.Obs) (info, string) {
 	switch c.Elem {
 	case "", elem.Int:
-		return checkEditOf(c, intKit())
+		return checkEditOf(c, intKit(), o)
 	case elem.Str:
-		return checkEditOf(c, strKit())
+		return checkEditOf(c, strKit(), o)
 	case kindWords:
-		return checkEditOf(c, wordsKit(c.Share))
+		return checkEditOf(c, wordsKit(c.Share), o)
 	case elem.I16:
-		return checkEditOf(c, i16Kit())
+		return checkEditOf(c, i16Kit(), o)
 	case elem.Wide:
-		return checkEditOf(c, wideKit())
+		return checkEditOf(c, wideKit(), o)
 	case elem.Ptr:
-		return checkEditOf(c, ptrKit())
+		return checkEditOf(c, ptrKit(), o)
 	case elem.Any:
-		return checkEditOf(c, anyKit())
+		return checkEditOf(c, anyKit(), o)
 	case elem.F64:
-		return checkEditOf(c, f64Kit())
+		return checkEditOf(c, f64Kit(), o)
 	}
 	return info{}, badKind("EditScript", c.Elem)
 }
 
-func checkEditOf[T comparable](c EditCase, k *ek[T]) (in info, msg string) {
+// editHdr is what a caller can see of one edit without looking at the
+// elements: the opcode and WHICH spans of lhs and rhs X and Y are.
+type editHdr[T any] struct {
+	op     slice.EditOp
+	xp, yp *T
+	xn, yn int
+	l0, r0 int // the offsets of the spans in lhs and rhs
+}
+
+func (h editHdr[T]) String() string {
+	return fmt.Sprintf("%s(X=lhs[%d:%d], Y=rhs[%d:%d])", opName(h.op), h.l0, h.l0+h.xn, h.r0, h.r0+h.yn)
+}
+
+func firstPtr[T any](s []T) *T {
+	if len(s) == 0 {
+		return nil
+	}
+	return &s[0]
+}
+
+// keptScript is a script as it was returned (and verified), with the copy it
+// is compared with later.
+type keptScript[T any] struct {
+	call   int
+	script []slice.Edit[T]
+	hdr    []editHdr[T]
+}
+
+// changed reports the first edit of the script that is no longer what it was.
+func (ks *keptScript[T]) changed() string {
+	for i, e := range ks.script {
+		h := ks.hdr[i]
+		if e.Op != h.op || len(e.X) != h.xn || len(e.Y) != h.yn || firstPtr(e.X) != h.xp || firstPtr(e.Y) != h.yp {
+			return fmt.Sprintf("edit #%d of %d was %v and is now %s with %d/%d elements (X %s, Y %s)", i, len(ks.script), h, opName(e.Op), len(e.X), len(e.Y),
+				sameOrNot(firstPtr(e.X) == h.xp), sameOrNot(firstPtr(e.Y) == h.yp))
+		}
+	}
+	return ""
+}
+
+func sameOrNot(same bool) string {
+	if same {
+		return "starts where it did"
+	}
+	return "starts somewhere else"
+}
+
+func fullIDs(ids []int, n int) []int {
+	out := make([]int, n)
+	for i := range out {
+		out[i] = idAt(ids, i)
+	}
+	return out
+}
+
+func checkEditOf[T comparable](c EditCase, k *ek[T], o *vk.Obs) (in info, msg string) {
 	if c.BigN > 0 {
 		n := min(c.BigN, 9000)
 		c.Lhs = make([]int, n)
@@ -352,16 +444,25 @@ func checkEditOf[T comparable](c EditCase, k *ek[T]) (in info, msg string) {
 			c.Lhs, c.Rhs = c.Rhs, c.Lhs
 		}
 	}
-	big := len(c.Lhs)*len(c.Rhs) > 1<<20
-	if c.Buf != nil {
-		// the values and identities of the two windows
-		win := func(w [2]int) (vs, ids []int) {
-			vs = slices.Clone(c.Buf[w[0]:w[1]])
-			for i := range vs {
-				ids = append(ids, idAt(c.BID, w[0]+i))
-			}
-			return
+	if len(c.Rounds) > 0 {
+		// the rounds rewrite the model of the inputs; the case itself is data
+		// that other executions share
+		if c.Buf != nil {
+			c.Buf, c.BID = slices.Clone(c.Buf), fullIDs(c.BID, len(c.Buf))
+		} else {
+			c.Lhs, c.LID = slices.Clone(c.Lhs), fullIDs(c.LID, len(c.Lhs))
+			c.Rhs, c.RID = slices.Clone(c.Rhs), fullIDs(c.RID, len(c.Rhs))
 		}
+	}
+	// the values and identities of the two windows of Buf
+	win := func(w [2]int) (vs, ids []int) {
+		vs = slices.Clone(c.Buf[w[0]:w[1]])
+		for i := range vs {
+			ids = append(ids, idAt(c.BID, w[0]+i))
+		}
+		return
+	}
+	if c.Buf != nil {
 		c.Lhs, c.LID = win(c.LV)
 		c.Rhs, c.RID = win(c.RV)
 	}
@@ -369,178 +470,300 @@ func checkEditOf[T comparable](c EditCase, k *ek[T]) (in info, msg string) {
 		return in, m
 	}
 	// The elements: the same (value, identity) is the same element wherever
-	// it occurs in the two inputs.  cl and cr are what the references see.
-	lhs, rhs := k.all(c.Lhs, c.LID), k.all(c.Rhs, c.RID)
+	// it occurs in the two inputs.
+	var lhs, rhs, buf []T
 	if c.Buf != nil {
-		buf := k.all(c.Buf, c.BID)
+		buf = k.all(c.Buf, c.BID)
 		lhs, rhs = buf[c.LV[0]:c.LV[1]], buf[c.RV[0]:c.RV[1]]
+	} else {
+		lhs, rhs = k.all(c.Lhs, c.LID), k.all(c.Rhs, c.RID)
 	}
-	pl, pr := slices.Clone(lhs), slices.Clone(rhs) // the inputs as they were
-	cl, cr := k.codes(c.Lhs, c.LID), k.codes(c.Rhs, c.RID)
 	name := "EditScript" + k.tag
-	errf := func(format string, args ...any) string {
-		return fmt.Sprintf("%s(lhs=%s, rhs=%s): ", name, k.brief(pl), k.brief(pr)) + fmt.Sprintf(format, args...)
-	}
-	var script []slice.Edit[T]
-	if pv := vk.PanicValue(func() { script = slice.EditScript(lhs, rhs) }); pv != nil {
-		return in, errf("panicked: %v", pv)
-	}
-	if !k.equal(lhs, pl) {
-		return in, errf("lhs was modified, now %s", k.brief(lhs))
-	}
-	if !k.equal(rhs, pr) {
-		return in, errf("rhs was modified, now %s", k.brief(rhs))
-	}
-	// edits are printed through their elements' texts (for int: as before)
-	disp := func(e slice.Edit[T]) slice.Edit[string] {
-		return slice.Edit[string]{Op: e.Op, X: k.shows(e.X), Y: k.shows(e.Y)}
-	}
-	dispAll := func() []slice.Edit[string] {
-		out := make([]slice.Edit[string], len(script))
-		for i, e := range script {
-			out[i] = disp(e)
+
+	// the scripts returned so far, and their re-validation
+	var kept []*keptScript[T]
+	recheck := func(when string) string {
+		for _, ks := range kept {
+			if m := ks.changed(); m != "" {
+				return fmt.Sprintf("%s(lhs=%s, rhs=%s): the script returned by call #%d of this case was valid when it was returned and has changed %s: %s", name, k.brief(lhs), k.brief(rhs), ks.call, when, m)
+			}
 		}
-		return out
+		return ""
 	}
 
-	// (validity) execute the script.
-	lpos, rpos, emitted := 0, 0, 0
-	var out []T    // what the script produces
-	var outC []int // ... as the references see it
-	for i, e := range script {
-		l0, r0 := lpos, rpos // offsets before this edit
-		where := func(format string, args ...any) string {
-			if len(script) > 40 || len(e.X)+len(e.Y) > 200 {
-				return errf("script of %d edits, edit #%d %s with %d/%d elements (at lhs offset %d, rhs offset %d): ", len(script), i, opName(e.Op), len(e.X), len(e.Y), l0, r0) + fmt.Sprintf(format, args...)
+	// diff calls EditScript on the inputs as they are now and checks the
+	// result; call counts from 1.  The classification is that of the first call.
+	diff := func(call int) string {
+		if c.Buf != nil && call > 1 {
+			c.Lhs, c.LID = win(c.LV)
+			c.Rhs, c.RID = win(c.RV)
+		}
+		big := len(c.Lhs)*len(c.Rhs) > 1<<20
+		pl, pr := slices.Clone(lhs), slices.Clone(rhs) // the inputs as they were
+		// cl and cr are what the references see
+		cl, cr := k.codes(c.Lhs, c.LID), k.codes(c.Rhs, c.RID)
+		errf := func(format string, args ...any) string {
+			nth := ""
+			if call > 1 {
+				nth = fmt.Sprintf(" [call #%d of the case: the same two backing arrays as in the calls before, updated in place]", call)
 			}
-			return errf("script %v, edit #%d %v (at lhs offset %d, rhs offset %d): ", dispAll(), i, disp(e), l0, r0) + fmt.Sprintf(format, args...)
+			return fmt.Sprintf("%s(lhs=%s, rhs=%s)%s: ", name, k.brief(pl), k.brief(pr), nth) + fmt.Sprintf(format, args...)
 		}
-		useX, useY := false, false
-		switch e.Op {
-		case slice.OpDrop:
-			useX = true
-		case slice.OpEmit:
-			useX = true
-		case slice.OpCopy:
-			useY = true
-		case slice.OpReplace:
-			useX, useY = true, true
-		default:
-			return in, where("unknown opcode %d", byte(e.Op))
+		var script []slice.Edit[T]
+		if pv := vk.PanicValue(func() { script = slice.EditScript(lhs, rhs) }); pv != nil {
+			return errf("panicked: %v", pv)
 		}
-		if useX && len(e.X) == 0 {
-			return in, where("%s with empty X (no empty edits / Replace needs both sides)", opName(e.Op))
+		if !k.equal(lhs, pl) {
+			return errf("lhs was modified, now %s", k.brief(lhs))
 		}
-		if useY && len(e.Y) == 0 {
-			return in, where("%s with empty Y (no empty edits / Replace needs both sides)", opName(e.Op))
+		if !k.equal(rhs, pr) {
+			return errf("rhs was modified, now %s", k.brief(rhs))
 		}
-		if !useX && len(e.X) != 0 {
-			return in, where("%s must have empty X, has %v", opName(e.Op), k.shows(e.X))
+		// edits are printed through their elements' texts (for int: as before)
+		disp := func(e slice.Edit[T]) slice.Edit[string] {
+			return slice.Edit[string]{Op: e.Op, X: k.shows(e.X), Y: k.shows(e.Y)}
 		}
-		if !useY && len(e.Y) != 0 {
-			return in, where("%s must have empty Y, has %v", opName(e.Op), k.shows(e.Y))
+		dispAll := func() []slice.Edit[string] {
+			out := make([]slice.Edit[string], len(script))
+			for i, e := range script {
+				out[i] = disp(e)
+			}
+			return out
 		}
-		if useX {
-			if m := spanOf(k, e.X, lhs, pl, lpos); m != "" {
-				return in, where("X is not the span of lhs at the current offset: %s", m)
+
+		// (validity) execute the script.
+		lpos, rpos, emitted := 0, 0, 0
+		var out []T    // what the script produces
+		var outC []int // ... as the references see it
+		hdr := make([]editHdr[T], 0, len(script))
+		for i, e := range script {
+			l0, r0 := lpos, rpos // offsets before this edit
+			where := func(format string, args ...any) string {
+				if len(script) > 40 || len(e.X)+len(e.Y) > 200 {
+					return errf("script of %d edits, edit #%d %s with %d/%d elements (at lhs offset %d, rhs offset %d): ", len(script), i, opName(e.Op), len(e.X), len(e.Y), l0, r0) + fmt.Sprintf(format, args...)
+				}
+				return errf("script %v, edit #%d %v (at lhs offset %d, rhs offset %d): ", dispAll(), i, disp(e), l0, r0) + fmt.Sprintf(format, args...)
+			}
+			useX, useY := false, false
+			switch e.Op {
+			case slice.OpDrop:
+				useX = true
+			case slice.OpEmit:
+				useX = true
+			case slice.OpCopy:
+				useY = true
+			case slice.OpReplace:
+				useX, useY = true, true
+			default:
+				return where("unknown opcode %d", byte(e.Op))
+			}
+			if useX && len(e.X) == 0 {
+				return where("%s with empty X (no empty edits / Replace needs both sides)", opName(e.Op))
+			}
+			if useY && len(e.Y) == 0 {
+				return where("%s with empty Y (no empty edits / Replace needs both sides)", opName(e.Op))
+			}
+			if !useX && len(e.X) != 0 {
+				return where("%s must have empty X, has %v", opName(e.Op), k.shows(e.X))
+			}
+			if !useY && len(e.Y) != 0 {
+				return where("%s must have empty Y, has %v", opName(e.Op), k.shows(e.Y))
+			}
+			if useX {
+				if m := spanOf(k, e.X, lhs, pl, lpos); m != "" {
+					return where("X is not the span of lhs at the current offset: %s", m)
+				}
+			}
+			if useY {
+				if m := spanOf(k, e.Y, rhs, pr, rpos); m != "" {
+					return where("Y is not the span of rhs at the current offset: %s", m)
+				}
+			}
+			// from here on X is lhs[lpos:lpos+len(X)] and Y is rhs[rpos:rpos+len(Y)]
+			hdr = append(hdr, editHdr[T]{op: e.Op, xp: firstPtr(e.X), yp: firstPtr(e.Y), xn: len(e.X), yn: len(e.Y), l0: l0, r0: r0})
+			switch e.Op {
+			case slice.OpDrop:
+				lpos += len(e.X)
+			case slice.OpEmit:
+				// the emitted lhs elements must be (==) the next rhs elements
+				if rpos+len(e.X) > len(rhs) || !slices.Equal(cl[lpos:lpos+len(e.X)], cr[rpos:rpos+len(e.X)]) {
+					return where("emitting %v does not produce the next elements of rhs %v", k.shows(e.X), k.brief(pr[min(rpos, len(pr)):]))
+				}
+				out = append(out, e.X...)
+				outC = append(outC, cl[lpos:lpos+len(e.X)]...)
+				emitted += len(e.X)
+				lpos += len(e.X)
+				rpos += len(e.X)
+			case slice.OpCopy:
+				out = append(out, e.Y...)
+				outC = append(outC, cr[rpos:rpos+len(e.Y)]...)
+				rpos += len(e.Y)
+			case slice.OpReplace:
+				out = append(out, e.Y...)
+				outC = append(outC, cr[rpos:rpos+len(e.Y)]...)
+				lpos += len(e.X)
+				rpos += len(e.Y)
+			}
+			// (canonical form) relations between neighbours
+			if i > 0 {
+				p := script[i-1].Op
+				if p == e.Op {
+					return where("two adjacent %s edits", opName(e.Op))
+				}
+				if (p == slice.OpDrop && e.Op == slice.OpCopy) || (p == slice.OpCopy && e.Op == slice.OpDrop) {
+					return where("%s adjacent to %s is not fused into one Replace", opName(p), opName(e.Op))
+				}
+			}
+			if call == 1 {
+				in.setIf(e.Op == slice.OpReplace, c11Replace)
 			}
 		}
-		if useY {
-			if m := spanOf(k, e.Y, rhs, pr, rpos); m != "" {
-				return in, where("Y is not the span of rhs at the current offset: %s", m)
+		if len(script) > 0 {
+			if lpos != len(lhs) {
+				return errf("script %v consumes %d of %d lhs elements", dispAll(), lpos, len(lhs))
+			}
+			if rpos != len(rhs) || !slices.Equal(outC, cr) {
+				return errf("script %v produces %s, want rhs", dispAll(), k.brief(out))
 			}
 		}
-		// from here on X is lhs[lpos:lpos+len(X)] and Y is rhs[rpos:rpos+len(Y)]
-		switch e.Op {
-		case slice.OpDrop:
-			lpos += len(e.X)
-		case slice.OpEmit:
-			// the emitted lhs elements must be (==) the next rhs elements
-			if rpos+len(e.X) > len(rhs) || !slices.Equal(cl[lpos:lpos+len(e.X)], cr[rpos:rpos+len(e.X)]) {
-				return in, where("emitting %v does not produce the next elements of rhs %v", k.shows(e.X), k.brief(pr[min(rpos, len(pr)):]))
+		// lhs == rhs, by the equality of the element type: the same values AND
+		// the same identities (which f64 does not have: +0 == -0)
+		eq := slices.Equal(cl, cr)
+		if eq != (len(script) == 0) {
+			if eq {
+				return errf("inputs are equal but the script is not empty: %v", dispAll())
 			}
-			out = append(out, e.X...)
-			outC = append(outC, cl[lpos:lpos+len(e.X)]...)
-			emitted += len(e.X)
-			lpos += len(e.X)
-			rpos += len(e.X)
-		case slice.OpCopy:
-			out = append(out, e.Y...)
-			outC = append(outC, cr[rpos:rpos+len(e.Y)]...)
-			rpos += len(e.Y)
-		case slice.OpReplace:
-			out = append(out, e.Y...)
-			outC = append(outC, cr[rpos:rpos+len(e.Y)]...)
-			lpos += len(e.X)
-			rpos += len(e.Y)
+			return errf("inputs differ but the script is empty")
 		}
-		// (canonical form) relations between neighbours
-		if i > 0 {
-			p := script[i-1].Op
-			if p == e.Op {
-				return in, where("two adjacent %s edits", opName(e.Op))
-			}
-			if (p == slice.OpDrop && e.Op == slice.OpCopy) || (p == slice.OpCopy && e.Op == slice.OpDrop) {
-				return in, where("%s adjacent to %s is not fused into one Replace", opName(p), opName(e.Op))
-			}
+		if len(script) == 0 {
+			emitted = len(lhs) // the empty script means: output equals input
+		} else {
+			kept = append(kept, &keptScript[T]{call: call, script: script, hdr: hdr})
 		}
-		in.setIf(e.Op == slice.OpReplace, c11Replace)
+
+		// (minimality) kept elements == LCS length by the reference table.
+		if big {
+			if want := lcsLen(cl, cr); emitted != want {
+				return errf("script of %d edits keeps %d elements, a longest common subsequence has %d", len(script), emitted, want)
+			}
+			if call == 1 {
+				in.nt = c.BigMod > 0
+				in.set(c11Long)
+				in.set(c11Big)
+				in.setIf(len(lhs)*len(rhs) > 1<<24, c11Big24)
+				in.setIf(len(script) >= 5, c11Edits5)
+			}
+			return ""
+		}
+		S := lcsTable(cl, cr)
+		if want := int(S[0]); emitted != want {
+			return errf("script %v keeps %d elements, a longest common subsequence has %d", dispAll(), emitted, want)
+		}
+		if call > 1 {
+			return ""
+		}
+
+		// classification
+		n := countDistinctLCS(cl, cr, S)
+		in.nt = n >= 2
+		in.setIf(eq, c11Equal)
+		in.setIf(len(lhs) == 0 || len(rhs) == 0, c11Empty)
+		in.setIf(S[0] == 0, c11LCS0)
+		in.setIf(len(script) >= 5, c11Edits5)
+		in.setIf(n == 1, c11One)
+		in.setIf(n >= 2 && n <= 9, c11Few)
+		in.setIf(n >= 10, c11Many)
+		in.setIf(len(lhs) >= 30 || len(rhs) >= 30, c11Long)
+		in.setIf(!eq && slices.Equal(c.Lhs, c.Rhs), c11Twins)
+		in.setIf(roundNumber(len(lhs)+len(rhs)) || roundNumber(len(lhs)*len(rhs)), c11RoundSize)
+		if k.kind == elem.F64 {
+			in.setIf(hasNegZero(c.Lhs, c.LID) || hasNegZero(c.Rhs, c.RID), c11Zeros)
+		}
+		return ""
 	}
-	if len(script) > 0 {
-		if lpos != len(lhs) {
-			return in, errf("script %v consumes %d of %d lhs elements", dispAll(), lpos, len(lhs))
-		}
-		if rpos != len(rhs) || !slices.Equal(outC, cr) {
-			return in, errf("script %v produces %s, want rhs", dispAll(), k.brief(out))
-		}
-	}
-	// lhs == rhs, by the equality of the element type: the same values AND
-	// the same identities (which f64 does not have: +0 == -0)
-	eq := slices.Equal(cl, cr)
-	if eq != (len(script) == 0) {
-		if eq {
-			return in, errf("inputs are equal but the script is not empty: %v", dispAll())
-		}
-		return in, errf("inputs differ but the script is empty")
-	}
-	if len(script) == 0 {
-		emitted = len(lhs) // the empty script means: output equals input
+
+	if m := diff(1); m != "" {
+		return in, m
 	}
 	in.set(c11Elem + elemClass(k.kind))
 
-	// (minimality) kept elements == LCS length by the reference table.
-	if big {
-		if want := lcsLen(cl, cr); emitted != want {
-			return in, errf("script of %d edits keeps %d elements, a longest common subsequence has %d", len(script), emitted, want)
+	// the rounds: update in place, diff again
+	for r, rd := range c.Rounds {
+		// write puts the element (v, id) at position p of a side (0 lhs, 1 rhs)
+		write := func(side, p, v, id int) string {
+			if !k.fits(v) {
+				return k.allFit([]int{v})
+			}
+			id &= 1<<idBits - 1
+			x := k.get(v, id)
+			switch {
+			case c.Buf != nil:
+				w := c.LV
+				if side == 1 {
+					w = c.RV
+				}
+				if n := w[1] - w[0]; n > 0 {
+					i := w[0] + (p%n+n)%n
+					c.Buf[i], c.BID[i], buf[i] = v, id, x
+				}
+			case side == 0 && len(lhs) > 0:
+				i := (p%len(lhs) + len(lhs)) % len(lhs)
+				c.Lhs[i], c.LID[i], lhs[i] = v, id, x
+			case side == 1 && len(rhs) > 0:
+				i := (p%len(rhs) + len(rhs)) % len(rhs)
+				c.Rhs[i], c.RID[i], rhs[i] = v, id, x
+			}
+			return ""
 		}
-		in.nt = c.BigMod > 0
-		in.set(c11Long)
-		in.set(c11Big)
-		in.setIf(len(lhs)*len(rhs) > 1<<24, c11Big24)
-		in.setIf(len(script) >= 5, c11Edits5)
-		return in, ""
-	}
-	S := lcsTable(cl, cr)
-	if want := int(S[0]); emitted != want {
-		return in, errf("script %v keeps %d elements, a longest common subsequence has %d", dispAll(), emitted, want)
+		if rd.Same {
+			n := min(len(lhs), len(rhs))
+			copy(rhs[:n], lhs[:n]) // (windows of one buffer may overlap: copy moves as memmove does)
+			if c.Buf != nil {
+				copy(c.Buf[c.RV[0]:c.RV[0]+n], c.Buf[c.LV[0]:c.LV[0]+n])
+				copy(c.BID[c.RV[0]:c.RV[0]+n], c.BID[c.LV[0]:c.LV[0]+n])
+			} else {
+				copy(c.Rhs[:n], c.Lhs[:n])
+				copy(c.RID[:n], c.LID[:n])
+			}
+		}
+		for _, w := range rd.L {
+			if m := write(0, w[0], w[1], w[2]); m != "" {
+				return in, m
+			}
+		}
+		for _, w := range rd.R {
+			if m := write(1, w[0], w[1], w[2]); m != "" {
+				return in, m
+			}
+		}
+		if m := diff(r + 2); m != "" {
+			return in, m
+		}
+		if m := recheck("after the inputs were updated in place and diffed again"); m != "" {
+			return in, m
+		}
+		in.set(c11Rounds)
+		in.setIf(len(lhs)*len(rhs) >= 4096, c11Rounds4096)
 	}
 
-	// classification
-	n := countDistinctLCS(cl, cr, S)
-	in.nt = n >= 2
-	in.setIf(eq, c11Equal)
-	in.setIf(len(lhs) == 0 || len(rhs) == 0, c11Empty)
-	in.setIf(S[0] == 0, c11LCS0)
-	in.setIf(len(script) >= 5, c11Edits5)
-	in.setIf(n == 1, c11One)
-	in.setIf(n >= 2 && n <= 9, c11Few)
-	in.setIf(n >= 10, c11Many)
-	in.setIf(len(lhs) >= 30 || len(rhs) >= 30, c11Long)
-	in.setIf(!eq && slices.Equal(c.Lhs, c.Rhs), c11Twins)
-	if k.kind == elem.F64 {
-		in.setIf(hasNegZero(c.Lhs, c.LID) || hasNegZero(c.Rhs, c.RID), c11Zeros)
+	if c.Then != nil {
+		if _, m := checkEditObs(*c.Then, o); m != "" {
+			return in, "[the second input pair of the case] " + m
+		}
+		if m := recheck("after EditScript was called with another pair of inputs"); m != "" {
+			return in, m
+		}
+		in.set(c11Then)
+	}
+	if len(kept) > 0 {
+		o.Retain(func() string { return recheck("after the next case had run") })
 	}
 	return in, ""
+}
+
+// roundNumber: the sizes fixed-size buffers and thresholds tend to have.
+func roundNumber(n int) bool {
+	return near(n, 64, 100, 128, 200, 256, 512, 1000, 1024)
 }
 
 // hasNegZero: some zero of the f64 sequence (vs, ids) is negative.
@@ -554,7 +777,7 @@ func hasNegZero(vs, ids []int) bool {
 }
 
 func runC11(c EditCase, o *vk.Obs) string {
-	in, msg := checkEdit(c)
+	in, msg := checkEditObs(c, o)
 	if msg == "" {
 		in.obs(o, c11Names)
 	}
@@ -640,11 +863,37 @@ func refLongestFast(vs []int, cmpf func(a, b int) int, strict bool) int {
 	return len(tails)
 }
 
+// minAtPow2 reports whether, reading vs from the left, an element strictly
+// below everything before it arrives at a moment when the longest
+// non-decreasing subsequence so far has exactly 2^k >= 32 elements.
+func minAtPow2(vs []int, cmpf func(a, b int) int) bool {
+	if len(vs) <= 32 {
+		return false
+	}
+	var tails []int
+	lowest := vs[0]
+	for i, v := range vs {
+		if l := len(tails); i > 0 && l >= 32 && l&(l-1) == 0 && cmpf(v, lowest) < 0 {
+			return true
+		}
+		if i > 0 && cmpf(v, lowest) < 0 {
+			lowest = v
+		}
+		lo := sort.Search(len(tails), func(j int) bool { return cmpf(tails[j], v) > 0 })
+		if lo == len(tails) {
+			tails = append(tails, v)
+		} else {
+			tails[lo] = v
+		}
+	}
+	return false
+}
+
 var c12SeqNames = append([]string{
 	"cmp=nat", "cmp=rev", "cmp=half", "empty", "all_equivalent", "whole_input_nondecreasing",
 	"strictly_decreasing", "has_adjacent_equal_run", "lnds>lis", "lnds>=lis+3", "len>=50",
 	"len>32768", "len>65536", "optimum>32768", "optimum>65536", "values_span_more_than_half_the_int_range",
-	"f64_input_has_NaN", "f64_input_has_-0",
+	"f64_input_has_NaN", "f64_input_has_-0", "new_strict_minimum_arrives_when_the_lnds_optimum_is_2^k>=32",
 }, elemClassNames...)
 
 const (
@@ -666,6 +915,7 @@ const (
 	c12Wide
 	c12NaN
 	c12NegZero
+	c12MinPow2
 	c12SeqElem // first of the elem=<kind> classes
 )
 
@@ -678,24 +928,28 @@ func natural[T cmp.Ordered](vs []T, strict bool) []T {
 }
 
 // checkSeq instantiates the check with the element kind of the case.
-func checkSeq(c SeqCase) (info, string) {
+func checkSeq(c SeqCase) (info, string) { return checkSeqObs(c, nil) }
+
+// checkSeqObs: o (may be nil) receives the re-validation of the returned
+// slices, see vk.Obs.Retain.
+func checkSeqObs(c SeqCase, o *vk.Obs) (info, string) {
 	switch c.Elem {
 	case "", elem.Int:
-		return checkSeqOf(c, intKit(), natural[int])
+		return checkSeqOf(c, intKit(), natural[int], o)
 	case elem.Str:
-		return checkSeqOf(c, strKit(), natural[string])
+		return checkSeqOf(c, strKit(), natural[string], o)
 	case elem.I16:
-		return checkSeqOf(c, i16Kit(), natural[int16])
+		return checkSeqOf(c, i16Kit(), natural[int16], o)
 	case elem.F64:
-		return checkSeqOf(c, f64Kit(), natural[float64])
+		return checkSeqOf(c, f64Kit(), natural[float64], o)
 	case elem.Wide:
-		return checkSeqOf(c, wideKit(), nil)
+		return checkSeqOf(c, wideKit(), nil, o)
 	case elem.Ptr:
-		return checkSeqOf(c, ptrKit(), nil)
+		return checkSeqOf(c, ptrKit(), nil, o)
 	case elem.Any:
-		return checkSeqOf(c, anyKit(), nil)
+		return checkSeqOf(c, anyKit(), nil, o)
 	case elem.Bytes:
-		return checkSeqOf(c, bytesKit(), nil)
+		return checkSeqOf(c, bytesKit(), nil, o)
 	}
 	return info{}, badKind("LIS/LNDS", c.Elem)
 }
@@ -717,7 +971,7 @@ func embedsT[T any](k *ek[T], sub, in []T) bool {
 }
 
 // checkSeqOf: nat is nil when the kind has no natural order.
-func checkSeqOf[T any](c SeqCase, k *ek[T], nat func(vs []T, strict bool) []T) (in info, msg string) {
+func checkSeqOf[T any](c SeqCase, k *ek[T], nat func(vs []T, strict bool) []T, o *vk.Obs) (in info, msg string) {
 	if len(c.Vs) == 0 && len(c.Segs) > 0 {
 		for _, sg := range c.Segs {
 			for i := 0; i < sg[2]; i++ {
@@ -844,6 +1098,21 @@ func checkSeqOf[T any](c SeqCase, k *ek[T], nat func(vs []T, strict bool) []T) (
 		lowLIS, lowLNDS = longest(novs)
 	}
 
+	// the results as they were returned (raw) and as they were then (frozen):
+	// a returned slice belongs to the caller, later calls must leave it alone
+	type keptResult struct {
+		name        string
+		raw, frozen []T
+	}
+	var kept []keptResult
+	recheck := func(when string) string {
+		for _, r := range kept {
+			if !k.equal(r.raw, r.frozen) {
+				return fmt.Sprintf("%s: the returned slice was verified as %s when it was returned and holds %s %s", r.name, k.brief(r.frozen), k.brief(r.raw), when)
+			}
+		}
+		return ""
+	}
 	for _, strict := range []bool{true, false} {
 		name, want, low := "LNDS", wantLNDS, lowLNDS
 		if strict {
@@ -874,9 +1143,16 @@ func checkSeqOf[T any](c SeqCase, k *ek[T], nat func(vs []T, strict bool) []T) (
 		if pv != nil {
 			return in, errf("panicked: %v", pv)
 		}
+		raw := got
 		got = slices.Clone(got) // the result may alias the input; freeze it before comparing
 		if !k.equal(vs, orig) {
 			return in, errf("the input was modified, now %s", k.brief(vs))
+		}
+		if m := recheck("after the call of " + name + " on a copy of the same input"); m != "" {
+			return in, m
+		}
+		if len(raw) > 0 {
+			kept = append(kept, keptResult{name, raw, got})
 		}
 		if !embedsT(k, got, orig) {
 			return in, errf("result %s is not a subsequence of the input", k.brief(got))
@@ -900,6 +1176,10 @@ func checkSeqOf[T any](c SeqCase, k *ek[T], nat func(vs []T, strict bool) []T) (
 		}
 	}
 
+	if len(kept) > 0 {
+		o.Retain(func() string { return recheck("after the next case had run") })
+	}
+
 	// classification
 	in.nt = wantLNDS > wantLIS
 	in.setIf(n == 0, c12SeqEmpty)
@@ -920,6 +1200,7 @@ func checkSeqOf[T any](c SeqCase, k *ek[T], nat func(vs []T, strict bool) []T) (
 	in.setIf(n > 1<<16, c12Seq16)
 	in.setIf(wantLNDS > 1<<15, c12Opt15)
 	in.setIf(wantLNDS > 1<<16, c12Opt16)
+	in.setIf(wantLNDS >= 32 && minAtPow2(mv, cmpf), c12MinPow2)
 	if c.Wide && n > 0 {
 		in.setIf(uint(slices.Max(c.Vs))-uint(slices.Min(c.Vs)) > (uint(k.hi)-uint(k.lo))/2, c12Wide)
 	}
@@ -927,7 +1208,7 @@ func checkSeqOf[T any](c SeqCase, k *ek[T], nat func(vs []T, strict bool) []T) (
 }
 
 func runC12Seq(c SeqCase, o *vk.Obs) string {
-	in, msg := checkSeq(c)
+	in, msg := checkSeqObs(c, o)
 	if msg == "" {
 		in.obs(o, c12SeqNames)
 	}
@@ -976,6 +1257,7 @@ var c12LCSNames = append([]string{
 	"len(as)==len(bs)", "distinct_lcs=1", "distinct_lcs=2..9", "distinct_lcs>=10", "len>=50",
 	"fold_merges_distinct_elements", "inputs_are_adjacent_windows_of_one_buffer", "one_input_is_a_window_of_the_other",
 	"inputs_start_at_the_same_element", "equal_values_that_are_different_elements",
+	"len(as)+len(bs)_or_product_is_64|100|128|200|256|512|1000|1024", "len(as)==len(bs)==64|100|128|200|256|512",
 }, elemClassNames...)
 
 const (
@@ -995,6 +1277,8 @@ const (
 	c12Window
 	c12SameStart
 	c12Twins
+	c12RoundSize
+	c12RoundBoth
 	c12LCSElem // first of the elem=<kind> classes
 )
 
@@ -1002,26 +1286,30 @@ const (
 func plainLCS[T comparable](as, bs []T) []T { return slice.LCS(as, bs) }
 
 // checkLCS instantiates the check with the element kind of the case.
-func checkLCS(c LCSCase) (info, string) {
+func checkLCS(c LCSCase) (info, string) { return checkLCSObs(c, nil) }
+
+// checkLCSObs: o (may be nil) receives the re-validation of the returned
+// slice, see vk.Obs.Retain.
+func checkLCSObs(c LCSCase, o *vk.Obs) (info, string) {
 	switch c.Elem {
 	case "", elem.Int:
-		return checkLCSOf(c, intKit(), plainLCS[int])
+		return checkLCSOf(c, intKit(), plainLCS[int], o)
 	case elem.Str:
-		return checkLCSOf(c, strKit(), plainLCS[string])
+		return checkLCSOf(c, strKit(), plainLCS[string], o)
 	case kindWords:
-		return checkLCSOf(c, wordsKit(c.Share), plainLCS[string])
+		return checkLCSOf(c, wordsKit(c.Share), plainLCS[string], o)
 	case elem.I16:
-		return checkLCSOf(c, i16Kit(), plainLCS[int16])
+		return checkLCSOf(c, i16Kit(), plainLCS[int16], o)
 	case elem.Wide:
-		return checkLCSOf(c, wideKit(), plainLCS[elem.WideElem])
+		return checkLCSOf(c, wideKit(), plainLCS[elem.WideElem], o)
 	case elem.Ptr:
-		return checkLCSOf(c, ptrKit(), plainLCS[*elem.Cell])
+		return checkLCSOf(c, ptrKit(), plainLCS[*elem.Cell], o)
 	case elem.Any:
-		return checkLCSOf(c, anyKit(), plainLCS[any])
+		return checkLCSOf(c, anyKit(), plainLCS[any], o)
 	case elem.F64:
-		return checkLCSOf(c, f64Kit(), plainLCS[float64])
+		return checkLCSOf(c, f64Kit(), plainLCS[float64], o)
 	case elem.Bytes:
-		return checkLCSOf(c, bytesKit(), nil)
+		return checkLCSOf(c, bytesKit(), nil, o)
 	}
 	return info{}, badKind("LCS/LCSFunc", c.Elem)
 }
@@ -1039,7 +1327,7 @@ func idWindow(ids []int, lo, hi int) []int {
 }
 
 // checkLCSOf: plain is nil when the kind is not comparable (LCSFunc only).
-func checkLCSOf[T any](c LCSCase, k *ek[T], plain func(as, bs []T) []T) (in info, msg string) {
+func checkLCSOf[T any](c LCSCase, k *ek[T], plain func(as, bs []T) []T, o *vk.Obs) (in info, msg string) {
 	switch c.Lay {
 	case 4:
 		lo, hi := window(c.Win, len(c.As))
@@ -1124,7 +1412,17 @@ func checkLCSOf[T any](c LCSCase, k *ek[T], plain func(as, bs []T) []T) (in info
 	if pv != nil {
 		return in, errf("panicked: %v", pv)
 	}
+	raw := got
 	got = slices.Clone(got)
+	if len(raw) > 0 {
+		// a returned slice belongs to the caller: later calls must leave it alone
+		o.Retain(func() string {
+			if !k.equal(raw, got) {
+				return errf("the returned slice was verified as %s when it was returned and holds %s after the next case had run", k.brief(got), k.brief(raw))
+			}
+			return ""
+		})
+	}
 	if !k.equal(as, pa) {
 		return in, errf("as was modified, now %s", k.brief(as))
 	}
@@ -1162,6 +1460,8 @@ func checkLCSOf[T any](c LCSCase, k *ek[T], plain func(as, bs []T) []T) (in info
 	in.setIf(n >= 2 && n <= 9, c12LFew)
 	in.setIf(n >= 10, c12LMany)
 	in.setIf(len(as) >= 50 || len(bs) >= 50, c12LLong)
+	in.setIf(roundNumber(len(as)+len(bs)) || roundNumber(len(as)*len(bs)), c12RoundSize)
+	in.setIf(len(as) == len(bs) && roundNumber(len(as)) && len(as) < 1000, c12RoundBoth)
 	in.setIf(c.Lay >= 1 && c.Lay <= 3, c12Adjacent)
 	in.setIf(c.Lay >= 4, c12Window)
 	in.setIf(c.Lay >= 4 && len(as) > 0 && len(bs) > 0 && &as[0] == &bs[0], c12SameStart)
@@ -1174,7 +1474,7 @@ func checkLCSOf[T any](c LCSCase, k *ek[T], plain func(as, bs []T) []T) (in info
 }
 
 func runC12LCS(c LCSCase, o *vk.Obs) string {
-	in, msg := checkLCS(c)
+	in, msg := checkLCSObs(c, o)
 	if msg == "" {
 		in.obs(o, c12LCSNames)
 	}
@@ -1207,9 +1507,18 @@ type UtilCase struct {
 	// The predicate stays a function of the element.
 	Elem string `json:"elem,omitempty"`
 	Dup  []int  `json:"dup,omitempty"`
+	// Mega (Rotate with int elements only) lifts the bound on N from maxUtilN
+	// to maxMegaN: slices of millions of elements, checked position by position
+	// in linear time.
+	Mega bool `json:"mega,omitempty"`
+	// Before is another call, made (and checked) immediately before this one,
+	// on a slice of its own: the functions are pure, so what was done to
+	// another slice a moment ago must not matter.
+	Before *UtilCase `json:"before,omitempty"`
 }
 
 const (
+	maxMegaN = 1 << 23
 	elemBase = 100
 	fillBase = -1000
 	sentinel = -7777
@@ -1228,7 +1537,8 @@ var c17Names = append([]string{
 	"fn=Partition", "fn=Rotate", "fn=Chunks", "fn=Batches", "fn=Head", "fn=Tail", "fn=Stripe", "fn=At", "fn=PtrAt",
 	"empty_slice", "documented_panic_expected", "spare_capacity", "rotate_gcd>1", "at_boundary",
 	"partition_needs_swaps", "uneven_pieces", "batches_larger_first", "batches_larger_last", "negative_index_valid",
-	"n>=50", "partition_equal_looking_elements",
+	"n>=50", "partition_equal_looking_elements", "preceded_by_a_call_on_another_slice",
+	"rotate_len>=2^20", "rotate_len>2^21", "rotate_len>2^21_preceded_by_rotate_of_len-2^21_or_len-2^22",
 }, elemClassNames...)
 
 const (
@@ -1253,6 +1563,10 @@ const (
 	c17NegIdx
 	c17Big
 	c17Dups
+	c17Before
+	c17Mega20
+	c17Mega21
+	c17MegaPair
 	c17Elem // first of the elem=<kind> classes
 )
 
@@ -1279,34 +1593,160 @@ func near(x int, pts ...int) bool {
 }
 
 // checkUtil instantiates the check with the element kind of the case.
-func checkUtil(c UtilCase) (info, string) {
+func checkUtil(c UtilCase) (info, string) { return checkUtilObs(c, nil) }
+
+// checkUtilObs: o (may be nil) receives the re-validation of returned slices
+// of slices, see vk.Obs.Retain.
+func checkUtilObs(c UtilCase, o *vk.Obs) (info, string) {
+	if c.Before != nil {
+		if _, m := checkUtilObs(*c.Before, o); m != "" {
+			return info{}, "[the call made before the one under test] " + m
+		}
+		in, m := checkUtil1(c, o)
+		if m == "" {
+			in.set(c17Before)
+			b := c.Before
+			if c.Mega && c.Fn == "Rotate" && b.Fn == "Rotate" && c.N > 1<<21 && (c.N-b.N == 1<<21 || c.N-b.N == 1<<22) {
+				in.set(c17MegaPair)
+			}
+		}
+		return in, m
+	}
+	return checkUtil1(c, o)
+}
+
+func checkUtil1(c UtilCase, o *vk.Obs) (info, string) {
 	switch c.Elem {
 	case "", elem.Int:
-		return checkUtilOf(c, intKit())
+		if c.Mega && c.Fn == "Rotate" {
+			return checkMegaRotate(c)
+		}
+		return checkUtilOf(c, intKit(), o)
 	case elem.Str:
-		return checkUtilOf(c, strKit())
+		return checkUtilOf(c, strKit(), o)
 	case elem.I16:
-		return checkUtilOf(c, i16Kit())
+		return checkUtilOf(c, i16Kit(), o)
 	case elem.Wide:
-		return checkUtilOf(c, wideKit())
+		return checkUtilOf(c, wideKit(), o)
 	case elem.Ptr:
-		return checkUtilOf(c, ptrKit())
+		return checkUtilOf(c, ptrKit(), o)
 	case elem.Any:
-		return checkUtilOf(c, anyKit())
+		return checkUtilOf(c, anyKit(), o)
 	case elem.F64:
-		return checkUtilOf(c, f64Kit())
+		return checkUtilOf(c, f64Kit(), o)
 	case elem.Bytes:
-		return checkUtilOf(c, bytesKit())
+		return checkUtilOf(c, bytesKit(), o)
 	case kindB8:
 		if c.Fn == "Stripe" {
 			break // its row elements do not fit a byte
 		}
-		return checkUtilOf(c, b8Kit())
+		return checkUtilOf(c, b8Kit(), o)
 	}
 	return info{}, badKind(c.Fn, c.Elem)
 }
 
-func checkUtilOf[T any](c UtilCase, k *ek[T]) (in info, msg string) {
+// checkMegaRotate is the Rotate check for int slices of up to maxMegaN
+// elements: the same demands as in checkUtilOf (every element at (i+k) mod
+// len, nothing written behind the slice, panic exactly for k outside
+// [-len, len]), verified in one linear pass without a copy of the slice.
+func checkMegaRotate(c UtilCase) (in info, msg string) {
+	n := min(max(c.N, 0), maxMegaN)
+	spare := min(max(c.Spare, 0), 64)
+	kk := c.K
+	arr := make([]int, n+spare+1)
+	for i := 0; i < n; i++ {
+		arr[i] = elemBase + i
+	}
+	for j := 0; j < spare; j++ {
+		arr[n+j] = fillBase - j
+	}
+	arr[n+spare] = sentinel
+	vs := arr[0 : n : n+spare]
+	call := fmt.Sprintf("Rotate(len %d, k=%d, spare capacity %d)", n, kk, spare)
+	errf := func(format string, args ...any) string {
+		return call + ": " + fmt.Sprintf(format, args...)
+	}
+	in.set(c17FnRotate)
+	in.set(c17Elem + elemClass(elem.Int))
+	in.setIf(n == 0, c17Empty)
+	in.setIf(spare > 0, c17Spare)
+	in.setIf(n >= 50, c17Big)
+	in.setIf(n >= 1<<20, c17Mega20)
+	in.setIf(n > 1<<21, c17Mega21)
+	allowed := kk >= -n && kk <= n
+	pv := vk.PanicValue(func() { slice.Rotate(vs, kk) })
+	g := 0
+	if allowed {
+		if pv != nil {
+			return in, errf("panicked for -len <= k <= len: %v", pv)
+		}
+		if n > 0 {
+			r := ((kk % n) + n) % n
+			// position j holds the element that was at index i = (j-k) mod len
+			i := (n - r) % n
+			for j := 0; j < n; j++ {
+				if arr[j] != elemBase+i {
+					return in, errf("the element originally at index %d must be at index %d, which holds the one from index %d; the slice from there on: %s", i, j, arr[j]-elemBase, brief(arr[j:min(n, j+12)]))
+				}
+				if i++; i == n {
+					i = 0
+				}
+			}
+			if r != 0 {
+				g = gcdRef(r, n)
+			}
+		}
+		for j := 0; j < spare; j++ {
+			if arr[n+j] != fillBase-j {
+				return in, errf("the spare capacity behind the slice was written: position len+%d holds %d, was %d", j, arr[n+j], fillBase-j)
+			}
+		}
+		if arr[n+spare] != sentinel {
+			return in, errf("the element after the slice's capacity was overwritten with %d", arr[n+spare])
+		}
+	} else {
+		in.set(c17Panic)
+		if pv == nil {
+			return in, errf("k is out of range [-len, len] but Rotate did not panic")
+		}
+	}
+	in.setIf(g > 1, c17Gcd)
+	b := near(kk, -n-1, -n, -n+1, -1, 0, 1, n-1, n, n+1)
+	in.setIf(b, c17Boundary)
+	in.nt = b || g > 1 || n == 0
+	return in, ""
+}
+
+// pieceHdr is what a caller sees of one returned piece without looking at
+// the elements.
+type pieceHdr[T any] struct {
+	p      *T
+	n, cap int
+}
+
+// retainPieces registers the re-validation of a slice of pieces as it was
+// returned: the outer slice belongs to the caller, later calls must leave it
+// alone.
+func retainPieces[T any](o *vk.Obs, call string, out [][]T) {
+	if o == nil || len(out) == 0 {
+		return
+	}
+	hdr := make([]pieceHdr[T], len(out))
+	for i, p := range out {
+		hdr[i] = pieceHdr[T]{firstPtr(p), len(p), cap(p)}
+	}
+	o.Retain(func() string {
+		for i, p := range out {
+			if h := hdr[i]; firstPtr(p) != h.p || len(p) != h.n || cap(p) != h.cap {
+				return fmt.Sprintf("%s: the returned slice of %d pieces was verified when it was returned and has changed after the next case had run: piece #%d had length %d and capacity %d, it now has length %d and capacity %d (%s)",
+					call, len(out), i, h.n, h.cap, len(p), cap(p), sameOrNot(firstPtr(p) == h.p))
+			}
+		}
+		return ""
+	})
+}
+
+func checkUtilOf[T any](c UtilCase, k *ek[T], o *vk.Obs) (in info, msg string) {
 	n, spare := c.N, c.Spare
 	if n < 0 {
 		n = 0
@@ -1574,6 +2014,7 @@ func checkUtilOf[T any](c UtilCase, k *ek[T]) (in info, msg string) {
 			if u := untouched(); u != "" {
 				return in, u
 			}
+			retainPieces(o, call, out)
 			in.setIf(kk > 0 && n%kk != 0 && n > kk, c17Uneven)
 		}
 		b := near(kk, -1, 0, 1, n-1, n, n+1)
@@ -1620,6 +2061,7 @@ func checkUtilOf[T any](c UtilCase, k *ek[T]) (in info, msg string) {
 			if u := untouched(); u != "" {
 				return in, u
 			}
+			retainPieces(o, call, out)
 		}
 		b := near(kk, -1, 0, 1, n-1, n, n+1)
 		in.setIf(b, c17Boundary)
@@ -1794,7 +2236,7 @@ func lens[T any](out [][]T) []int {
 }
 
 func runC17(c UtilCase, o *vk.Obs) string {
-	in, msg := checkUtil(c)
+	in, msg := checkUtilObs(c, o)
 	if msg == "" {
 		in.obs(o, c17Names)
 	}
